@@ -9,7 +9,7 @@ R(q) == {q[i] : i \in DOMAIN q}
 LoggedPost(p) == /\ providers' = p.providers /\ feeds' = p.feeds /\ primary' = p.primary
                  /\ blocks' = {<<b[1], b[2]>> : b \in R(p.blocks)} /\ files' = {<<f[1], f[2], f[3]>> : f \in R(p.files)}
                  /\ inbox' = {<<b[1], b[2]>> : b \in R(p.inbox)} /\ height' = p.height
-Lbl(e) == [f \in (DOMAIN e) \ {"post", "x"} |-> e[f]]
+Lbl(e) == [f \in (DOMAIN e) \ {"post", "x", "once"} |-> e[f]]
 SpecAct(e) ==
   CASE e.a = "initprovider" -> InitProvider(e.s, e.v)
     [] e.a = "shutdown" -> Shutdown(e.s)
